@@ -864,7 +864,7 @@ inductive Step where
   | next (result : SV)                        -- all statements done
   | cont (result : SV) (value : Option V)     -- resultContinue: the loop's value so far, the value the completion carries
   | brk (result : SV) (value : Option V)      -- resultBreak
-  | ret (v : SV) (result : SV)                -- resultReturn: the result value itself, and the loop's value so far
+  | ret (v : SV) (pass : SV)                  -- resultReturn: the result value itself, and the value of this pass over the body
 
 /-- result.go Value.carrying: a break / continue completion without a value takes the value produced so far -/
 def carrying (v : SV) (acc : SV) : SV :=
@@ -1332,6 +1332,7 @@ def evalS : Nat → FS → M SV
     | .ret (some e) => do let v ← resolve (← evalE n e); pure (.ret v)
     | .ifS c t e => do                                                                  -- :313
       let tv ← resolve (← evalE n c)
+      modifySt fun σ => { σ with labels := [] }                                         -- rt.labels = nil (12.12)
       if truthy tv then evalBlock n t
       else (match e with
         | .nil => pure .empty                                                           -- rendered without `else`
@@ -1381,6 +1382,7 @@ def evalS : Nat → FS → M SV
       let o ← toObject ov
       let lexical ← allocStash (.obj (some outer) o)
       modifySt (setLexical lexical)
+      modifySt fun σ => { σ with labels := [] }                                         -- rt.labels = nil (12.12)
       deferM (evalBlock n b) (setLexical outer)
     | .forIn _ x oe b => do                                                             -- :182
       let σ ← getSt
@@ -1506,17 +1508,17 @@ def switchRun : Nat → FCases → List String → SV → M SV
 termination_by structural n => n
 
 /-- the statements of a loop body, one by one (`for _, node := range body`) -/
-def loopBody : Nat → FSs → List String → SV → M Step
-  | 0, _, _, _ => outOfFuel
-  | _+1, .nil, _, result => pure (.next result)
-  | n+1, .cons s r, labels, result => do
+def loopBody : Nat → FSs → List String → SV → SV → M Step
+  | 0, _, _, _, _ => outOfFuel
+  | _+1, .nil, _, result, _ => pure (.next result)
+  | n+1, .cons s r, labels, result, pass => do
     let value ← evalS n s
     match value with
-    | .empty => loopBody n r labels result
-    | .val v => loopBody n r labels (.val v)
-    | .ret _ => pure (.ret value result)
-    | .brk t c => if consumes labels t then pure (.brk result c) else pure (.ret value result)
-    | .cont t c => if consumes labels t then pure (.cont result c) else pure (.ret value result)
+    | .empty => loopBody n r labels result pass
+    | .val v => loopBody n r labels (.val v) (.val v)                       -- `pass, result = value, value`
+    | .ret _ => pure (.ret value pass)                                      -- `return value.carrying(pass)`
+    | .brk t c => if consumes labels t then pure (.brk result c) else pure (.ret value pass)
+    | .cont t c => if consumes labels t then pure (.cont result c) else pure (.ret value pass)
 termination_by structural n => n
 
 /-- cmpl_evaluate_statement.go:418 cmplEvaluateModeWhileStatement -/
@@ -1526,7 +1528,7 @@ def evalWhile : Nat → FE → FSs → List String → SV → M SV
     let tv ← resolve (← evalE n test)
     if !truthy tv then pure result
     else do
-      let st ← loopBody n body labels result
+      let st ← loopBody n body labels result .empty                          -- `pass := emptyValue`
       match st with
       | .next r => evalWhile n test body labels r
       | .cont r c => evalWhile n test body labels (carried c r)
@@ -1581,10 +1583,9 @@ def forInNames : Nat → String → FSs → List String → Nat → Bool → Nat
         let sc ← curScope
         let into ← getIdentifierReference (← stashFuel) (some sc.lexical) x
         rtPutValue into (.str name)
-        let st ← loopBody n body labels ev
+        let st ← loopBody n body labels ev .empty
         match st with
-        | .ret v ev' =>                                                      -- obj = nil
-          pure (some (carrying v (match ev' with | .empty => result | e => e)), (ev', visited'))
+        | .ret v pass => pure (some (carrying v pass), (ev, visited'))       -- result = value.carrying(pass); obj = nil
         | .brk ev' c => pure (some (carried c (match ev' with | .empty => result | e => e)), (ev', visited'))
         | .cont ev' c => forInNames n x body labels sourceObject keep obj rest result (carried c ev') visited'
         | .next ev' => forInNames n x body labels sourceObject keep obj rest result ev' visited'
